@@ -5,6 +5,7 @@ import Driver.Ctl
 import Svgdx.Xml.Raw
 import Svgdx.Xml.Write
 import Svgdx.Doc.Root
+import Svgdx.Geom.Text
 namespace Driver
 open Svgdx Xml
 
@@ -48,6 +49,17 @@ def handleXml (op : Str) (args : List Str) : Option String :=
   else if op == cs!"xml_unescape" then
     match args with
     | [s] => some (match Xml.unescape s with | some r => joinFields [cs!"ok", r] | none => "err")
+    | _ => none
+  else if op == cs!"text_attr" then
+    match args with
+    | [el] =>
+      some (match Text.processTextAttr (decodeElem el) with
+        | .ok (orig, tes) => joinFields (cs!"ok" :: encodeElem orig :: tes.flatMap fun t => [encodeElem t.el, t.content])
+        | .error e => joinFields [cs!"err", e.name.toList])
+    | _ => none
+  else if op == cs!"text_string" then
+    match args with
+    | [s] => some (joinFields [Text.textString s])
     | _ => none
   else if op == cs!"root_attrs" then
     -- root_attrs border scale style(-) localid(-) bbox(none | x1 y1 x2 y2 as 4 fields) n k v …
